@@ -175,6 +175,17 @@ Definition extract_method_name (src : bytes) (n : cst) (file : bytes) : result (
   let cont := content src n ++ " " ++ dec (c_row n + 1) ++ ":" ++ dec (c_col n + 1) in
   Ok (name, method_id_pre name params (file ++ "/" ++ cont)).
 
+(* isComment: comments may stand between any two tokens and are never one of the parts of a
+   declaration or statement *)
+Definition is_comment (n : cst) : bool := is_ty "block_comment" n || is_ty "line_comment" n.
+Definition not_comment (n : cst) : bool := negb (is_comment n).
+
+(* the children that are not comments, in order *)
+Definition parts (n : cst) : list cst := filter not_comment (c_kids n).
+
+(* partAt(node, i): the i-th child among the children that are not comments; nil when there is none *)
+Definition part_at (n : cst) (i : nat) : option cst := nth_error (parts n) i.
+
 Definition opt_content (src : bytes) (o : option cst) : option bytes :=
   match o with Some c => Some (content src c) | None => None end.
 
@@ -194,16 +205,20 @@ Definition punct_stop (t : bytes) : bool :=
   existsb (bytes_eqb t) ["("; ")"; "{"; "}"; "["; "]"; ","].
 
 (* variable_declarator handling inside local_variable_declaration / field_declaration *)
+(* the loop over the declarator's children: after every "=" child, the texts of the remaining
+   children that are not comments are appended *)
+Fixpoint init_text (src : bytes) (ks : list cst) (value : bytes) : bytes :=
+  match ks with
+  | [] => value
+  | k :: r =>
+      let value' := if is_ty "=" k
+                    then value ++ concat (List.map (content src) (filter not_comment r)) else value in
+      init_text src r value'
+  end.
+
 Definition declarator (src : bytes) (ch : cst) (name0 value0 : bytes) : bytes * bytes :=
   let name1 := match child_by_field ch "name" with Some nm => content src nm | None => content src ch end in
-  let fix go (ks : list cst) (value : bytes) : bytes :=
-      match ks with
-      | [] => value
-      | k :: r =>
-          let value' := if is_ty "=" k then value ++ concat (List.map (content src) r) else value in
-          go r value'
-      end in
-  (name1, remove_byte nl (remove_byte x20 (go (c_kids ch) value0))).
+  (name1, remove_byte nl (remove_byte x20 (init_text src (c_kids ch) value0))).
 
 (* a node with every optional attribute empty *)
 Definition mk_node (idpre ty name snip : bytes) (line : N) (ext : bool) (file : bytes) (isj : bool) : node :=
@@ -249,7 +264,7 @@ Definition call_args (src : bytes) (n : cst) : list bytes :=
       List.map (fun a =>
         if is_ty "string_literal" a
         then trim_suffix """" (trim_prefix """" (content src a))
-        else content src a) (named_kids ch)
+        else content src a) (filter not_comment (named_kids ch))
     else []) (c_kids n).
 
 Definition class_attrs (src : bytes) (n : cst) : bytes * list bytes * bytes * list bytes :=
@@ -261,7 +276,7 @@ Definition class_attrs (src : bytes) (n : cst) : bytes * list bytes * bytes * li
                   then fold_left (fun s k => if is_ty "type_identifier" k then content src k else s) (c_kids ch) super
                   else super in
     let ifaces1 := if is_ty "super_interfaces" ch
-                   then ifaces ++ flat_map (fun tl => List.map (content src) (named_kids tl)) (c_kids ch)
+                   then ifaces ++ flat_map (fun tl => List.map (content src) (filter not_comment (named_kids tl))) (c_kids ch)
                    else ifaces in
     (mods1, annots1, super1, ifaces1)) (c_kids n) ([], [], [], []).
 
@@ -279,7 +294,7 @@ Definition new_attrs (src : bytes) (n : cst) : bytes * list (bytes * bytes) :=
                   then content src ch else cname in
     let args1 := if is_ty "argument_list" ch
                  then List.map (fun a => (c_ty a, content src a))
-                        (filter (fun a => negb (punct_stop (c_ty a))) (c_kids ch))
+                        (filter (fun a => negb (punct_stop (c_ty a)) && not_comment a) (c_kids ch))
                  else args in
     (cname1, args1)) (c_kids n) ([], []).
 
@@ -290,31 +305,31 @@ Definition entities_of (src file : bytes) (prev : option cst) (n : cst) : result
   let snip := content src n in
   let ty := c_ty n in
   if bytes_eqb ty "block" then
-    Ok [stmt_entity "block" "BlockStmt" src n file (SBlock (List.map (content src) (c_kids n)))]
+    Ok [stmt_entity "block" "BlockStmt" src n file (SBlock (List.map (content src) (parts n)))]
   else if bytes_eqb ty "return_statement" then
-    let r := match child n 1 with
+    let r := match part_at n 1 with
              | Some c => if c_named c then Some (content src c) else None
              | None => None end in
     Ok [stmt_entity "return" "ReturnStmt" src n file (SReturn r)]
   else if bytes_eqb ty "assert_statement" then
-    do c1 <- deref "ParseAssertStatement:Child(1)" (child n 1);
-    let msg := match child n 3 with
+    do c1 <- deref "ParseAssertStatement:partAt(1)" (part_at n 1);
+    let msg := match part_at n 3 with
                | Some c3 => if is_ty "string_literal" c3 then Some (content src c3) else None
                | None => None end in
     Ok [stmt_entity "assert" "AssertStmt" src n file (SAssert (content src c1) msg)]
   else if bytes_eqb ty "yield_statement" then
-    do c1 <- deref "ParseYieldStatement:Child(1)" (child n 1);
+    do c1 <- deref "ParseYieldStatement:partAt(1)" (part_at n 1);
     Ok [stmt_entity "yield" "YieldStmt" src n file (SYield (content src c1))]
   else if bytes_eqb ty "break_statement" then
     Ok [stmt_entity "breakstmt" "BreakStmt" src n file (SBreak (last_ident_label src n))]
   else if bytes_eqb ty "continue_statement" then
     Ok [stmt_entity "continuestmt" "ContinueStmt" src n file (SContinue (last_ident_label src n))]
   else if bytes_eqb ty "if_statement" then
-    let thn := match child n 2 with Some c => content src c | None => [] end in
-    let els := match child n 4 with Some c => content src c | None => [] end in
-    Ok [stmt_entity "ifstmt" "IfStmt" src n file (SIf (opt_content src (child n 1)) thn els)]
+    let thn := match child_by_field n "consequence" with Some c => content src c | None => [] end in
+    let els := match child_by_field n "alternative" with Some c => content src c | None => [] end in
+    Ok [stmt_entity "ifstmt" "IfStmt" src n file (SIf (opt_content src (child_by_field n "condition")) thn els)]
   else if bytes_eqb ty "while_statement" then
-    Ok [stmt_entity "while_stmt" "WhileStmt" src n file (SWhile (opt_content src (child n 1)))]
+    Ok [stmt_entity "while_stmt" "WhileStmt" src n file (SWhile (opt_content src (child_by_field n "condition")))]
   else if bytes_eqb ty "do_statement" then
     Ok [stmt_entity "dowhile_stmt" "DoStmt" src n file (SDo (opt_content src (child_by_field n "condition")))]
   else if bytes_eqb ty "for_statement" then
@@ -475,7 +490,7 @@ Definition kinds_of (src : bytes) (n : cst) : list bytes :=
 Definition node_shape_okb (n : cst) : bool :=
   let ty := c_ty n in
   if bytes_eqb ty "assert_statement" || bytes_eqb ty "yield_statement" then
-    match child n 1 with Some _ => true | None => false end
+    match part_at n 1 with Some _ => true | None => false end
   else if bytes_eqb ty "binary_expression" then
     match child_by_field n "left", child_by_field n "right", child_by_field n "operator" with
     | Some _, Some _, Some _ => true | _, _, _ => false end
